@@ -187,6 +187,50 @@ def applyMaskFunc {μ} [Inhabited μ] [MaskVal μ] (maskFunc : List Nat → Opti
     | none => .runtimeError
     | some o => .ok (o, m)
 
+/-- the part of a sample dict `ApplyMaskModule.forward` can see: `sample[input_kspace_key]`,
+`sample[sampling_mask_key]` (absent keys are `none`) and whatever is already stored under
+`target_kspace_key` (stale content of any shape, or nothing). -/
+structure Sample (μ : Type) where
+  input : Option (Tensor FVal)
+  mask : Option (Tensor μ)
+  target : Option (Tensor FVal)
+
+/-- outcome of `ApplyMaskModule.forward`: the new `sample[target_kspace_key]` or the error raised -/
+inductive ModRes where
+  | ok (target : Tensor FVal)
+  | valueError          -- input or mask key missing
+  | assertionError
+  | runtimeError
+deriving Repr, DecidableEq
+
+def ModRes.ofRes : Res (Tensor FVal) → ModRes
+  | .ok o => .ok o
+  | .assertionError => .assertionError
+  | .runtimeError => .runtimeError
+
+/-- `ApplyMaskModule.forward`: two key guards, then `target = apply_mask(input, mask)[0]` stored
+under the target key.  A function of (input, mask) only: `s.target` is never read. -/
+def applyMaskModule {μ} [Inhabited μ] [MaskVal μ] (s : Sample μ) : ModRes :=
+  match s.input with
+  | none => .valueError
+  | some k =>
+    match s.mask with
+    | none => .valueError
+    | some m => ModRes.ofRes (applyMask m k)
+
+/-- a history of applications of the module to the *same* sample dict with a new mask each time
+(distinct input and target keys): the target written by one step is the stale target of the next.
+Returns the outcome of every step. -/
+def moduleHistory {μ} [Inhabited μ] [MaskVal μ] (k : Tensor FVal) :
+    Option (Tensor FVal) → List (Tensor μ) → List ModRes
+  | _, [] => []
+  | t, m :: ms =>
+    let r := applyMaskModule { input := some k, mask := some m, target := t }
+    let t' := match r with
+      | .ok o => some o
+      | _ => t
+    r :: moduleHistory k t' ms
+
 /-- `apply_padding(data, padding)`; `padding = None` returns the data. -/
 def applyPadding {μ} [Inhabited μ] [MaskVal μ] (p : Option (Tensor μ)) (d : Tensor FVal) :
     Res (Tensor FVal) :=
